@@ -26,21 +26,21 @@ type Violation struct {
 }
 
 type Stats struct {
-	Runs        int            `json:"runs"`
-	Ops         int            `json:"ops"`
-	Steps       int            `json:"steps"`
-	Contended   int            `json:"contended"`
-	Blocks      int            `json:"blocks"`
-	Policies    map[string]int `json:"policies"`
-	Outcomes    map[string]int `json:"outcomes"`
-	OpKinds     map[string]int `json:"op_kinds"`
-	Probes      map[string]int `json:"probes"`
-	Scopes      map[string]int `json:"scopes"`
-	Faults      map[string]int `json:"faults"`
-	Distinct    map[string]int `json:"-"`
-	Interleave  map[string]int `json:"-"`
-	Samples     []any          `json:"samples"`
-	PerConfig   map[string]int `json:"per_config"`
+	Runs       int            `json:"runs"`
+	Ops        int            `json:"ops"`
+	Steps      int            `json:"steps"`
+	Contended  int            `json:"contended"`
+	Blocks     int            `json:"blocks"`
+	Policies   map[string]int `json:"policies"`
+	Outcomes   map[string]int `json:"outcomes"`
+	OpKinds    map[string]int `json:"op_kinds"`
+	Probes     map[string]int `json:"probes"`
+	Scopes     map[string]int `json:"scopes"`
+	Faults     map[string]int `json:"faults"`
+	Distinct   map[string]int `json:"-"`
+	Interleave map[string]int `json:"-"`
+	Samples    []any          `json:"samples"`
+	PerConfig  map[string]int `json:"per_config"`
 }
 
 func NewStats() *Stats {
